@@ -470,8 +470,7 @@ pub struct C16State {
     /// (is_tx, hash) -> (last status, client incarnation, client tip number when first asked)
     pub st: BTreeMap<(bool, Vec<u8>), (FetchSt, u64, u64)>,
 }
-#[derive(Default)]
-pub struct C18State {}
+pub use crate::txgen::C18State;
 #[derive(Default)]
 pub struct C06State {}
 #[derive(Default)]
@@ -1423,4 +1422,8 @@ pub fn c16_at_end(ck: &mut Checker, sim: &mut Sim) {
     }
 }
 pub fn c18_on_client_send(_ck: &mut Checker, _sim: &mut Sim, _s: usize, _p: Proto, _d: &Bytes) {}
-pub fn c18_at_end(_ck: &mut Checker, _sim: &mut Sim) {}
+pub fn c18_at_end(ck: &mut Checker, sim: &mut Sim) {
+    let mut st = std::mem::take(&mut ck.c18);
+    crate::txgen::check_pool(sim, &mut st);
+    ck.c18 = st;
+}
